@@ -89,6 +89,9 @@ type Site struct {
 	// Outer is set when the function is a closure passed as an argument to a repo
 	// function that calls its parameter: Outer is the call that passed the closure.
 	Outer *ssa.Call
+	// Bound is set when the function is reached as a bound method value `T{…}.m`: the MakeClosure of
+	// the bound-method wrapper (its single binding is the receiver).
+	Bound *ssa.MakeClosure
 }
 
 // CallSites enumerates the invocation sites of f inside the repo. complete is
@@ -122,19 +125,19 @@ func CallSites(p *Prog, f *ssa.Function) (sites []Site, complete bool) {
 			switch x := r.(type) {
 			case *ssa.Call:
 				if x.Call.Value == prm {
-					sites = append(sites, Site{g, x, "call", outer})
+					sites = append(sites, Site{g, x, "call", outer, nil})
 				} else {
 					complete = false
 				}
 			case *ssa.Go:
 				if x.Call.Value == prm {
-					sites = append(sites, Site{g, x, "go", outer})
+					sites = append(sites, Site{g, x, "go", outer, nil})
 				} else {
 					complete = false
 				}
 			case *ssa.Defer:
 				if x.Call.Value == prm {
-					sites = append(sites, Site{g, x, "defer", outer})
+					sites = append(sites, Site{g, x, "defer", outer, nil})
 				} else {
 					complete = false
 				}
@@ -155,7 +158,7 @@ func CallSites(p *Prog, f *ssa.Function) (sites []Site, complete bool) {
 				switch x := r.(type) {
 				case *ssa.Call:
 					if x.Call.Value == v {
-						sites = append(sites, Site{user, x, "call", nil})
+						sites = append(sites, Site{user, x, "call", nil, nil})
 						continue
 					}
 					g := Callee(&x.Call)
@@ -170,13 +173,13 @@ func CallSites(p *Prog, f *ssa.Function) (sites []Site, complete bool) {
 					}
 				case *ssa.Go:
 					if x.Call.Value == v {
-						sites = append(sites, Site{user, x, "go", nil})
+						sites = append(sites, Site{user, x, "go", nil, nil})
 					} else {
 						complete = false
 					}
 				case *ssa.Defer:
 					if x.Call.Value == v {
-						sites = append(sites, Site{user, x, "defer", nil})
+						sites = append(sites, Site{user, x, "defer", nil, nil})
 					} else {
 						complete = false
 					}
@@ -203,6 +206,12 @@ func CallSites(p *Prog, f *ssa.Function) (sites []Site, complete bool) {
 			case *ssa.MakeClosure:
 				if x.Fn == ssa.Value(f) {
 					useOf(user, x)
+				} else if m, _ := boundTarget(x); m == f && m != nil {
+					n0 := len(sites)
+					useOf(user, x)
+					for i := n0; i < len(sites); i++ {
+						sites[i].Bound = x
+					}
 				}
 			case ssa.CallInstruction:
 				c := x.Common()
@@ -217,7 +226,7 @@ func CallSites(p *Prog, f *ssa.Function) (sites []Site, complete bool) {
 					case *ssa.Defer:
 						kind = "defer"
 					}
-					sites = append(sites, Site{user, ins, kind, nil})
+					sites = append(sites, Site{user, ins, kind, nil, nil})
 				}
 			}
 			// bare function value used as operand (not as static callee)
